@@ -49,8 +49,8 @@ Check (C16_truncate_spec : forall x, std1 "truncate" x = okn (Qred (inject_Z (tr
 Check (C16_fract_spec : forall x, std1 "fract" x = okn (Qred (x - inject_Z (trunc x)))).
 Check (C16_truncate_fract : forall x, exists t f, std1 "truncate" x = okn t /\ std1 "fract" x = okn f /\ x == t + f /\ Qabs f < 1 /\ (0 <= x -> 0 <= f) /\ (x <= 0 -> f <= 0)).
 Check (C16_abs_spec : forall x, exists y, std1 "abs" x = okn y /\ y == Qabs x).
-Check (C16_min_spec : forall x y, std2 "min" x y = okn (mn x y)).
-Check (C16_max_spec : forall x y, std2 "max" x y = okn (mx x y)).
+Check (C16_min_spec : forall x y, exists m, std2 "min" x y = okn m /\ m == mn x y /\ (m = x \/ m = y)).
+Check (C16_max_spec : forall x y, exists m, std2 "max" x y = okn m /\ m == mx x y /\ (m = x \/ m = y)).
 Check (C16_minmax_lattice : forall x y z, mn x y == mn y x /\ mx x y == mx y x /\ mn (mn x y) z == mn x (mn y z) /\ mx (mx x y) z == mx x (mx y z) /\ mn x x == x /\ mx x x == x /\ mn x (mx x y) == x /\ mx x (mn x y) == x /\ mn x y <= x /\ mn x y <= y /\ x <= mx x y /\ y <= mx x y /\ (z <= x -> z <= y -> z <= mn x y) /\ (x <= z -> y <= z -> mx x y <= z) /\ (mn x y = x \/ mn x y = y) /\ (mx x y = x \/ mx x y = y)).
 Check (C16_is_integer_spec : forall x, std1 "is_integer" x = okb (Pos.eqb (Qden (Qred x)) 1)).
 Check (C16_compare_spec : forall x y, std2 "compare" x y = Ok (VEnum (match (x ?= y)%Q with Lt => "Lesser" | Eq => "Equal" | Gt => "Greater" end))).
